@@ -131,7 +131,7 @@ func (c *Ctx) c18Policy() {
 			}
 		})
 	}
-	r.Floor("C18/POLICY", "bluemonday calls in the module", n, 5)
+	r.Floor("C18/POLICY", "bluemonday calls in the module", n, 1)
 	sort.Strings(probs)
 	if len(probs) > 0 {
 		r.Bad("C18/POLICY", "sanitize.policy", site, "%s", strings.Join(probs, "; "))
@@ -337,7 +337,7 @@ func (c *Ctx) c18CSS() {
 			states = append(states, fn)
 		}
 	}
-	r.Floor("C18/CSS", "state handler functions", len(states), 3)
+	r.Floor("C18/CSS", "state handler functions", len(states), 1)
 	isTokenValue := func(v ssa.Value) bool {
 		f := eng.LoadedField(v)
 		return f != nil && f.Name() == "Value" && f.Pkg() != nil && strings.HasSuffix(f.Pkg().Path(), "css/scanner")
